@@ -205,6 +205,13 @@ Definition sent (s : sess) : sess :=
      s_lcpid := s_lcpid s; s_pin := s_pin s; s_pout := s_pout s + 1; s_inst := s_inst s |}.
 Definition ppp_frame (s : sess) (proto : N) (data : bytes) : eframe := ESess (s_mac s) (s_id s) proto data.
 
+(* IPPool.Release(session.SessionID) *)
+Definition pool_release (st : state) (s : sess) : list N * list (N * N) :=
+  match assoc_get (st_alloc st) (s_inst s) with
+  | Some ip => (st_avail st ++ [ip], assoc_del (st_alloc st) (s_inst s))
+  | None => (st_avail st, st_alloc st)
+  end.
+
 Definition keep (st : state) (s : sess) (fr : list eframe) : sres :=
   {| r_sess := Some s; r_avail := st_avail st; r_alloc := st_alloc st; r_frames := fr; r_rad := 0 |}.
 
@@ -227,8 +234,8 @@ Definition handle_lcp (c : config) (st : state) (s : sess) (payload : bytes) : s
       else if code =? 2 then keep st (set_state s StAuth) []          (* Configure-Ack: any state, any id *)
       else if code =? 3 then let r := lcp_request c s in keep st (fst r) [snd r]   (* Configure-Nak *)
       else if code =? 9 then keep st (sent s) [ppp_frame s ProtoLCP (ctl 10 id [0;0;0;0])]  (* Echo *)
-      else if code =? 5 then                              (* Terminate-Request: ack, Closed, removed *)
-        {| r_sess := None; r_avail := st_avail st; r_alloc := st_alloc st;
+      else if code =? 5 then                  (* Terminate-Request: ack, Closed, address released, removed *)
+        {| r_sess := None; r_avail := fst (pool_release st s); r_alloc := snd (pool_release st s);
            r_frames := [ppp_frame s ProtoLCP (ctl 6 id [])]; r_rad := 0 |}
       else keep st s []
   end.
@@ -237,9 +244,13 @@ Definition handle_lcp (c : config) (st : state) (s : sess) (payload : bytes) : s
 Definition start_ipcp (c : config) (st : state) (s : sess) (fr : list eframe) (rad : N) : sres :=
   let '(s1, av, al) :=
     if c_has_pool c then
-      match st_avail st with
-      | [] => (set_ip s None, st_avail st, st_alloc st)                         (* Allocate returns nil *)
-      | ip :: rest => (set_ip s (Some ip), rest, assoc_set (st_alloc st) (s_inst s) ip)
+      match assoc_get (st_alloc st) (s_inst s) with
+      | Some ip => (set_ip s (Some ip), st_avail st, st_alloc st)     (* Allocate: the session keeps its address *)
+      | None =>
+          match st_avail st with
+          | [] => (set_ip s None, st_avail st, st_alloc st)                     (* Allocate returns nil *)
+          | ip :: rest => (set_ip s (Some ip), rest, assoc_set (st_alloc st) (s_inst s) ip)
+          end
       end
     else (s, st_avail st, st_alloc st) in
   match s_ip s1 with
@@ -262,7 +273,9 @@ Definition handle_pap (c : config) (st : state) (s : sess) (payload : bytes) (or
       if ok then
         start_ipcp c st (set_state (sent s1) StIPCP) [ppp_frame s1 ProtoPAP (pap_resp 2 id msg_ok)] rad
       else
-        {| r_sess := Some (set_state (sent s1) StClosed); r_avail := st_avail st; r_alloc := st_alloc st;
+        (* Closed; an address from an earlier accept goes back to the pool (ClientIP itself stays set) *)
+        {| r_sess := Some (set_state (sent s1) StClosed);
+           r_avail := fst (pool_release st s); r_alloc := snd (pool_release st s);
            r_frames := [ppp_frame s1 ProtoPAP (pap_resp 3 id msg_bad)]; r_rad := rad |}
   end.
 
@@ -366,10 +379,7 @@ Definition handle_padt (g : gates) (c : config) (st : state) (src sid : N) : sta
   | Some s =>
       if g_owner g && negb (s_mac s =? src) then noop st                (* [G2] *)
       else
-      let '(av, al) := match assoc_get (st_alloc st) (s_inst s) with       (* IPPool.Release *)
-                       | Some ip => (st_avail st ++ [ip], assoc_del (st_alloc st) (s_inst s))
-                       | None => (st_avail st, st_alloc st) end in
-      let st' := drop_session st s av al in
+      let st' := drop_session st s (fst (pool_release st s)) (snd (pool_release st s)) in
       (st', mk_out st' [] 0 false, if (s_mac s =? src) || g_owner g then [] else [402])
   end.
 
@@ -385,7 +395,7 @@ Definition handle_session (g : gates) (c : config) (st : state) (src sid proto :
                  | Some s' => {| st_sessions := replace_sess (st_sessions st) s'; st_macidx := st_macidx st;
                                  st_next := st_next st; st_ninst := st_ninst st;
                                  st_avail := r_avail r; st_alloc := r_alloc r |}
-                 | None => drop_session st s (r_avail r) (r_alloc r)      (* LCP terminate: the address stays allocated *)
+                 | None => drop_session st s (r_avail r) (r_alloc r)      (* LCP Terminate-Request *)
                  end in
       (st', mk_out st' (r_frames r) (r_rad r) false,
        (if (s_mac s =? src) || g_owner g then [] else [402]) ++
